@@ -218,6 +218,20 @@ func c06Check(c *kit.Case, in c06Input) {
 	if mem.heapPointer != rwBase+c06P(wl)+z*4096 {
 		c.Failf("heap pointer %#x, want %#x", mem.heapPointer, rwBase+c06P(wl)+z*4096)
 	}
+	// every page is its own 4096 octets: a mark written into one page shows in no other page
+	for pn, pg := range mem.Pages {
+		if pg != nil && len(pg.Value) >= 16 {
+			pg.Value[8], pg.Value[9], pg.Value[10], pg.Value[11] = byte(pn), byte(pn>>8), byte(pn>>16), 0xC6
+		}
+	}
+	for pn, pg := range mem.Pages {
+		if pg != nil && len(pg.Value) >= 16 {
+			if pg.Value[8] != byte(pn) || pg.Value[9] != byte(pn>>8) || pg.Value[10] != byte(pn>>16) || pg.Value[11] != 0xC6 {
+				c.Failf("page %#x does not hold the mark written into it (it holds %x): two pages of the initialised map share memory (o=%d w=%d z=%d s=%d a=%d)",
+					pn, pg.Value[8:12], in.OLen, in.WLen, in.Z, in.S, in.ALen)
+			}
+		}
+	}
 	// last: the guest's pages must be the guest's own memory. After scribbling over every page the
 	// caller's blob and argument must still be what was passed in (no page may alias its source).
 	for _, pg := range mem.Pages {
